@@ -48,13 +48,14 @@ func fsConfigFields(p *load.Program) []cfgField {
 
 func runC07(c *core.Ctx) {
 	runFixtures(c, "valid", "route")
-	c.Explain("Structural clauses of C07 decided from source: (R07.1) every path.Join that combines a Sub root kept in a file-system value (subFS.basePath, os.FS.root) with a name does so where the name is known to satisfy ValidPath — a valid name has no '..' element, so the joined path is lexically inside the root — and every value stored into such a root field is a constant, the old root, or derived from a name known valid at the store; (R07.2) confinement: the wrapped root file system of the generic Sub view is read only by its Mount method and constructor, and every file-system call the view makes uses the (FS, subPath) pair returned by one Mount call; (R07.3) the view translates errors with the (name, subPath) pair of that same call; (R07.4) no function of the module (other than Mount implementations) returns a file system that derives from the file-system half of a Mount(dir) route resolution — the route of dir says nothing about the routes of names below dir, so a view built on it misses mounts below dir; (R07.5 = R06.7) every helper that probes an optional capability also probes MountFS, through which the generic Sub view delegates — without it the operation fails with ErrNotImplemented on the view while it succeeds on the parent. (R07.6) prefix tests against a view's root are on element boundaries; (R07.7) a helper never resolves a route a second time on the file system Mount returned. (R07.8) no method of a view type writes a field of its receiver; (R07.9 = R05.11) namespace typing of the translator. (R07.10) = R06.3 pairing under C07; (R07.11) the generic view delegates to the exported helper of its own name. (R07.12) = R08.11 under C07; R07.1 also covers views allocated without a root. NOT claimed: equality of effects and results between the view and the parent at dir/name; symbolic links of an OS-backed FS (excluded by the property).")
+	c.Explain("Structural clauses of C07 decided from source: (R07.1) every path.Join that combines a Sub root kept in a file-system value (subFS.basePath, os.FS.root) with a name does so where the name is known to satisfy ValidPath — a valid name has no '..' element, so the joined path is lexically inside the root — and every value stored into such a root field is a constant, the old root, or derived from a name known valid at the store; (R07.2) confinement: the wrapped root file system of the generic Sub view is read only by its Mount method and constructor, and every file-system call the view makes uses the (FS, subPath) pair returned by one Mount call; (R07.3) the view translates errors with the (name, subPath) pair of that same call; (R07.4) no function of the module (other than Mount implementations) returns a file system that derives from the file-system half of a Mount(dir) route resolution — the route of dir says nothing about the routes of names below dir, so a view built on it misses mounts below dir; (R07.5 = R06.7) every helper that probes an optional capability also probes MountFS, through which the generic Sub view delegates — without it the operation fails with ErrNotImplemented on the view while it succeeds on the parent. (R07.6) prefix tests against a view's root are on element boundaries; (R07.7) a helper never resolves a route a second time on the file system Mount returned. (R07.8) no method of a view type writes a field of its receiver; (R07.9 = R05.11) namespace typing of the translator. (R07.10) = R06.3 pairing under C07; (R07.11) the generic view delegates to the exported helper of its own name. (R07.12) = R08.11 under C07; R07.1 also covers views allocated without a root. (R07.13) = R04.9 under C07. NOT claimed: equality of effects and results between the view and the parent at dir/name; symbolic links of an OS-backed FS (excluded by the property).")
 	c.Assume("A2: path.Join(valid root, valid name) stays lexically inside root", "A1: the parent file system confines a valid sub-path")
 	c.RuleDoc("R07.1", "join-after-validate for Sub roots; root fields only receive validated values")
 	c.RuleDoc("R07.2", "generic Sub view reaches its parent only through Mount's (FS, subPath) pair")
 	c.RuleDoc("R07.3", "Sub view error translation uses the same pair")
 	c.RuleDoc("R07.6", "prefix tests against a view's root (os.FS root, mount translation) are on path-element boundaries")
 	c.RuleDoc("R07.10", "a helper delegates with the (file system, sub-path) pair of one Mount call and translates with it (= R06.3)")
+	c.RuleDoc("R07.13", "no substring test for \"..\" on a name: a view refuses exactly what its parent refuses (= R04.9)")
 	c.RuleDoc("R07.12", "a helper asserts the operation's own interface before MountFS, so a view's own methods (and their guards) are the ones that run (= R08.11)")
 	c.RuleDoc("R07.11", "a method of the generic Sub view delegates to the exported operation of its own name")
 	c.RuleDoc("R07.8", "no method of a view type writes a field of its receiver")
@@ -74,6 +75,7 @@ func runC07(c *core.Ctx) {
 		r07SingleResolution(c, p)
 		r07ViewsAreValues(c, p)
 		r07ViewDelegatesByName(c, p)
+		r04NoSubstringDotDot(c, p, "R07.13")
 		// R07.10 (= R06.3): helpers delegate with the pair of one Mount call
 		c.WithAlias(map[string]string{"R06.3": "R07.10"}, func() { r06Pairs(c, p) })
 		// R07.12 (= R08.11): the helpers ask the file system for the operation's own interface before MountFS — the generic
@@ -93,6 +95,7 @@ func runC07(c *core.Ctx) {
 	c.Floor("R07.10", 15)
 	c.Floor("R07.11", 3)
 	c.Floor("R07.12", 10)
+	c.Floor("R07.13", 1)
 	c.Floor("R07.9", 2)
 }
 
